@@ -8,7 +8,7 @@ def check(tier, seed):
     return G.generic_check(PID, "proof", tier, seed, coq=True,
         rule="obligations: theorems of coq/properties/C04.v over PosImpl.v; correspondence: operation sequences on the real Position vs PosImpl.run_ops evaluated inside Coq, 105 observables (incl. key, piece sets, material, psq sums, game phase, check cache, repetition 1-3, insufficient material) after every operation (pos-cases); monitor: random games (corpus incl. FENs with en-passant squares and without castling field + random placements); after every move all incremental getters are compared with a fresh position built from the current FEN and with sums of the published per-piece values over the board; the key is checked to be a function of (placement, side, rights, ep) across all positions seen in the run (different histories, FEN vs play) and different positions to have different keys; distinct = distinct Zobrist keys",
         streams=[dict(name="position_model_vs_engine", kind="coqprint", shards=lambda t: 4 if t == "quick" else 16,
-                      args=lambda t, s, sh, path: ["pos-cases", 14 if t == "quick" else 60, s * 1000 + 700 + sh, path], coq_timeout=3000),
+                      args=lambda t, s, sh, path: ["pos-cases", 14 if t == "quick" else 60, s * 1000 + 700 + sh, path], coq_timeout=3000, replay_kinds=['incremental-differs-from-fresh', 'own-fen-rejected']),
                  dict(name="incremental_monitor", kind="monitor", shards=lambda t: 8,
                       args=lambda t, s, sh, path: ["pos-monitor", 1500 if t == "quick" else 20000, s * 1000 + sh, 1],
                       violation_kinds=["incremental-differs-from-fresh", "incremental-differs-from-recomputed", "same-position-different-key",
